@@ -59,6 +59,7 @@ fn make_rule(rng : &mut Rng, outs : Vec<String>, sources : Vec<String>, salt_cou
         salt : format!("k{}", salt_counter),
         garbage : false,
         split : outs.len() >= 2 && rng.chance(1, 4),
+        precheck : rng.chance(1, 6),
     }
 }
 
